@@ -358,6 +358,9 @@ func (g *G) scSwitch() []Node {
 		var test Node = g.n(i)
 		if g.R.Chance(1, 4) {
 			test = CallN("v", S("t"), g.n(i))
+		} else if g.R.Chance(1, 5) {
+			// a case expression that changes the variable the discriminant was read from
+			test = Seq(Asg(Id("x"), g.n(g.R.Intn(n+1))), g.n(i+10))
 		}
 		cases = append(cases, Case{Test: test, Body: body})
 	}
@@ -393,14 +396,15 @@ func (g *G) scTryFinally() []Node {
 		catchB = Blk(Log(S("catch"), Tern(Bin("instanceof", Id("e"), Id("Error")), Dot(Id("e"), "name"), Id("e"))), abrupt(), Log(S("catch-end")))
 	}
 	if mode != 0 {
-		finB = Blk(Log(S("finally")), abrupt(), Log(S("finally-end")))
+		finB = Blk(Log(S("finally"), Id("e")), abrupt(), Log(S("finally-end")))
 	}
 	i := g.fresh("i")
 	body := []Node{
+		V("e", S("outer-e")), // same name as the catch parameter: visible again in finally and after (12.14)
 		&For{Init: V(i, N(0)), Test: Bin("<", Id(i), N(2)), Update: Inc(Id(i), false), Body: Blk(
 			Log(S("iter"), Id(i)),
 			TryC(tryB, "e", catchB, finB),
-			Log(S("iter-end"), Id(i)),
+			Log(S("iter-end"), Id(i), Id("e")),
 		)},
 		Ret(S("fell-off")),
 	}
@@ -554,6 +558,28 @@ func (g *G) scToPrimitive() []Node {
 	perm := g.R.Perm(len(uses))
 	for _, k := range perm[:g.R.Range(2, 5)] {
 		out = append(out, TryC(Blk(Log(S("tp"), uses[k])), "e", Blk(Log(S("tp-err"), Dot(Id("e"), "name"))), nil))
+	}
+	// both operands observable: the order of the two conversions (and which one
+	// throws first) is fixed by 11.5-11.10 for every operator
+	o2 := g.fresh("tq")
+	vo2 := []Node{FnE("", nil, Log(S("valueOf2")), Ret(N(7))), FnE("", nil, Log(S("valueOf2")), Ret(S("7"))), FnE("", nil, Log(S("valueOf2")), Thr(S("right")))}
+	out = append(out, V(o2, ObjL(P("valueOf", vo2[g.R.Intn(3)]), P("toString", FnE("", nil, Log(S("toString2")), Ret(S("str2")))))))
+	for k := g.R.Range(2, 4); k > 0; k-- {
+		op := BinOps[g.R.Intn(len(BinOps))]
+		if op == "in" || op == "instanceof" || op == "||" || op == "&&" {
+			op = "<="
+		}
+		l, r := Id(o), Id(o2)
+		if g.R.Bool() {
+			l, r = r, l
+		}
+		var use Node = Bin(op, l, r)
+		if g.R.Chance(1, 4) && op != "<" && op != ">" && op != "<=" && op != ">=" && op != "==" && op != "!=" && op != "===" && op != "!==" {
+			tmp := g.fresh("tc")
+			out = append(out, V(tmp, l))
+			use = AsgOp(op+"=", Id(tmp), r)
+		}
+		out = append(out, TryC(Blk(Log(S("tp2"), use)), "e", Blk(Log(S("tp2-err"), Tern(Bin("instanceof", Id("e"), Id("Error")), Dot(Id("e"), "name"), Id("e")))), nil))
 	}
 	return out
 }
